@@ -285,7 +285,9 @@ def run_property(a, seed, run_contracts):
             elif exp == 'known-fail':
                 # the unsplit clause of a known finding: expected to fail while the finding is open
                 pass
-        new = [cid for cid in clauses if cid not in ledger]
+        kmap_ = getattr(mod, 'KNOWN', {})
+        # the unsplit clause of an open known finding may or may not be reached by a passing draw: never "new"
+        new = [cid for cid in clauses if cid not in ledger and not (cid in kmap_ and kmap_[cid].get('role') == 'full')]
         if new:
             undecided.append('clauses not in LEDGER.json (run --update-ledger after review): %s' % new[:8])
     else:
@@ -310,6 +312,9 @@ def run_property(a, seed, run_contracts):
             e['function'] = ';'.join(vc.CONTRACTS[c['contract']].functions[:3])
             e['contract'] = c['contract']
             ent[cid] = e
+        for cid_, km_ in getattr(mod, 'KNOWN', {}).items():
+            if km_.get('role') == 'full' and cid_ not in ent and not a.only:
+                ent[cid_] = {'expect': 'known-fail', 'known_finding': km_['finding'], 'function': '', 'contract': ''}
         if not a.only:
             ledger_all[prop] = ent
         else:
